@@ -568,15 +568,18 @@ def handle : List String → String
   | ["global", go] =>
     match parseAll (pOutcome pObj) go with
     | some go =>
-      let impl := fromGlobal nativeF none
-      reply (showOutcome showObj impl) (decide (go ≠ .panic)) (decide (impl ≠ .panic)) [.nilGlobal]
+      -- the untyped nil global: the script must see `nil` (or Eval returns an error); no finding
+      -- covers this case any more (C08-nil-global-panic is repaired)
+      let impl := evalGlobal nativeF none
+      let spec := fun (r : Outcome Obj) => decide (r = .ok .nil) || decide (r = .error)
+      reply (showOutcome showObj impl) (spec go) (spec impl) []
     | none => "error\tbad-request"
   | ["evalglobal", ty, v, go] =>
     match parseAll pTy ty, parseAll pVal v, parseAll (pOutcome pObj) go with
     | some ty, some v, some go =>
       let impl := evalGlobal nativeF (some (ty, v))
       reply (showOutcome showObj impl) (specRead nativeF ty v go) (specRead nativeF ty v impl)
-        ((if fromGo nativeF .create ty v = .error then [.globalError] else []) ++ crossGuards .create ty v)
+        (crossGuards .create ty v)
     | _, _, _ => "error\tbad-request"
   | ["retry", ty, v, i, go] =>
     -- second conversion of a struct whose first registration failed, then a field read
